@@ -17,10 +17,10 @@ go test -vet=off -count=1 -skip '^TestSeedDemo$' ./... > /tmp/seed_$ID.suite 2>&
 echo "suite with change (demo skipped): rc=$S $(tail -1 /tmp/seed_$ID.suite)"
 go test -vet=off -count=1 -run '^TestSeedDemo$' . > /tmp/seed_$ID.with 2>&1; W=$?
 echo "demo with change: rc=$W"
-git stash push -q -- $FILES
+git checkout -q -- $FILES   # no git stash: the stash is shared between worktrees
 go test -vet=off -count=1 -run '^TestSeedDemo$' . > /tmp/seed_$ID.without 2>&1; O=$?
 echo "demo without change: rc=$O"
-git stash pop -q
+git apply /tmp/seed_$ID.diff
 if [ $S -eq 0 ] && [ $W -ne 0 ] && [ $O -eq 0 ]; then
   mkdir -p /verif/seeded/$ID
   cp /tmp/seed_$ID.diff /verif/seeded/$ID/patch.diff
